@@ -26,11 +26,15 @@ import vlib
 
 AREA = "Pruning"
 P = "Arc.Pruning.Props"
+REMOTE_HARNESS = {"internal/pruning/zz_verif_clock.go": "harness/pruning/verif_clock.go",
+                  "internal/pruning/zz_remote_verif_test.go": "harness/pruning/remote_verif_test.go"}
+SIG_REMOTE_LIST = "remote-day-list-error-drops-day-path"
 THEOREMS = [(P, n) for n in (
     "C18_civil_roundtrip_days", "C18_civil_roundtrip_date", "C18_paths_cover", "C18_generated_within", "C18_path_injective",
     "C18_bounds_sound_conj", "C18_month_arith_agree", "C18_month_arith_order", "C18_pruning_sound_guarded",
     "C18_or_refuted", "C18_not_refuted", "C18_timestamp_column_refuted", "C18_default_start_refuted",
-    "C18_default_end_refuted", "C18_month_end_refuted", "C18_pre_epoch_refuted")]
+    "C18_default_end_refuted", "C18_month_end_refuted", "C18_pre_epoch_refuted",
+    "C18_remote_keeps_hour", "C18_remote_keeps_day", "C18_remote_world_faithful")]
 MODULES = [P]
 TIE_NAME = ("C18 correspondence (pruning.ExtractTimeRange/GeneratePartitionPaths under a controlled clock; "
             "api.convertSQLToStoragePaths + real DuckDB with pruning on/off vs Arc.Pruning.Model)")
@@ -114,6 +118,11 @@ def spell(us, kind):
     if kind == "offset":          # RFC3339 with +02:00
         l = dt(us + 2 * HOUR)
         return (l.strftime("%Y-%m-%dT%H:%M:%S") + "+02:00", True) if sec_ok else None
+    if kind in ("off_p5", "off_m3", "off_p530"):     # RFC3339 with a non-zero offset (value = the UTC instant)
+        off = {"off_p5": 5 * HOUR, "off_m3": -3 * HOUR, "off_p530": 5 * HOUR + 1800 * US}[kind]
+        l = dt(us + off)
+        txt = l.strftime("%Y-%m-%dT%H:%M:%S") + ("" if sec_ok else (".%06d" % (us % US)).rstrip("0"))
+        return (txt + {"off_p5": "+05:00", "off_m3": "-03:00", "off_p530": "+05:30"}[kind], True)
     if kind == "plus00":          # DuckDB reads it, Go's layouts do not
         return (d.strftime("%Y-%m-%d %H:%M:%S") + "+00", False) if sec_ok else None
     if kind == "t_nozone":
@@ -121,7 +130,7 @@ def spell(us, kind):
     raise ValueError(kind)
 
 
-SPELLINGS = ["space", "space", "space", "rfc", "date", "minute", "frac", "offset", "plus00", "t_nozone"]
+SPELLINGS = ["space", "space", "space", "rfc", "date", "minute", "frac", "offset", "plus00", "t_nozone", "off_p5", "off_m3", "off_p530"]
 
 
 def mk_lit(rng, us, kinds=None):
@@ -376,10 +385,10 @@ def rng_unit(c):
     return "months" if c["rel"][0] % 2 else "month"
 
 
-def run_pruner(cases, tag):
-    out = vlib.run_go_harness("C18", "./internal/pruning/", "^TestVerifPruner$", PRUNER_HARNESS,
+def run_pruner(cases, tag, test="^TestVerifPruner$", harness=None, env=None):
+    out = vlib.run_go_harness("C18", "./internal/pruning/", test, harness or PRUNER_HARNESS,
                               [dict({"sql": c["sql"], "now": c["now"]}, **({"rel_amount": str(c["rel"][0]), "rel_unit": rng_unit(c), "rel_add": c["rel"][1]} if "rel" in c else {}))
-                               for c in cases], rewrites=CLOCK_REWRITE, tag="pruner_" + tag)
+                               for c in cases], rewrites=CLOCK_REWRITE, tag="pruner_" + tag, env=env)
     if len(out) != len(cases):
         raise vlib.TieBroken("C18 pruner harness returned %d results for %d cases" % (len(out), len(cases)))
     for c, o in zip(cases, out):
@@ -482,7 +491,7 @@ def build_layout(rng):
 def query_cases(rng, tier, base, day_files):
     n = 100 if tier == "quick" else 600
     # spellings DuckDB accepts for a TIMESTAMP comparison
-    kinds = ["space", "space", "rfc", "date", "minute", "frac", "offset", "plus00", "t_nozone"]
+    kinds = ["space", "space", "rfc", "date", "minute", "frac", "offset", "plus00", "t_nozone", "off_p5", "off_p5", "off_m3", "off_m3", "off_p530"]
     cases = [{"w": w, "tag": "witness-" + name, "now": NOW_GEN} for name, w in witnesses(base, NOW_GEN, bounded=True)]
     cases += [{"w": w, "tag": "corpus-" + name, "now": NOW_GEN} for name, w in load_corpus()]
     L = lambda us: {"us": us, "text": spell(us // US * US, "space")[0], "ok": True}
@@ -528,6 +537,72 @@ def run_queries(files, cases, tag, prims=()):
     for c, o in zip(cases, out["queries"]):
         c["obs"] = o
     return cases, [r for q in (out.get("prims") or []) for r in (q or [])]
+
+
+def month_key(dn):
+    d = dt(dn * DAY)
+    return d.year * 12 + d.month - 1
+
+
+def remote_cases(rng, tier):
+    """s3:// storage with a fake DirectoryLister: what is stored, which listing calls fail"""
+    n = 150 if tier == "quick" else 1500
+    base = 1584280800 * US
+    h0 = base // HOUR
+    L = lambda us: {"us": us, "text": spell(us, "space")[0], "ok": True}
+    w0 = ("and", A(("cmp", "time", ">=", L(base))), A(("cmp", "time", "<", L(base + 2 * HOUR))))
+    # regression witness of the finding fixed by 4553183: List(<day>/) fails while an hour path survives
+    cases = [{"w": w0, "now": NOW_GEN, "hours": [h0], "days": [h0 // 24], "fail_day": [], "fail_month": [], "fail_list": [h0 // 24], "full": k == 1,
+              "sql": "SELECT * FROM vdb.vm WHERE %s" % w_text(w0)} for k in range(2)]
+    for i in range(n):
+        w = gen_where(rng, base, NOW_GEN, kinds=SPELLINGS, allow_rel=False, ub_base=1583020800 * US, lb_base=NOW_GEN - 2 * DAY)   # kinds given: no 45 000-path ranges
+        uni = list(range(h0 - 60, h0 + 90))
+        hours = sorted(h for h in uni if rng.random() < rng.choice([0.15, 0.5, 0.9]))
+        days_u = sorted({h // 24 for h in uni})
+        days = sorted(d for d in days_u if rng.random() < 0.4)
+        fail_day = sorted(d for d in days_u if rng.random() < rng.choice([0.0, 0.3, 0.3, 1.0]) * 0.5)
+        fail_month = sorted({month_key(d) for d in days_u if rng.random() < 0.04})
+        fail_list = sorted(d for d in days_u if rng.random() < 0.12)
+        cases.append({"w": w, "now": NOW_GEN, "hours": hours, "days": days, "fail_day": fail_day, "fail_month": fail_month,
+                      "fail_list": fail_list, "full": rng.random() < 0.5,
+                      "sql": "SELECT * FROM vdb.vm WHERE %s%s" % (w_text(w), rng.choice(TAILS))})
+    return cases
+
+
+def run_pruner_and_remote(pcases, rcases, tag):
+    """one `go test` invocation of package pruning for both harnesses"""
+    def mk(k):
+        return "%04d/%02d" % (k // 12, k % 12 + 1)
+    inp = [{"sql": c["sql"], "now": c["now"], "hours": [hour_dir(h) for h in c["hours"]], "days": [day_dir(d) for d in c["days"]],
+            "fail_day": [day_dir(d) for d in c["fail_day"]], "fail_month": [mk(k) for k in c["fail_month"]],
+            "fail_list": [day_dir(d) for d in c["fail_list"]], "full_names": c["full"]} for c in rcases]
+    d = os.path.join(vlib.WORK, "cases", "C18")
+    os.makedirs(d, exist_ok=True)
+    rin, rout = os.path.join(d, "remote_%s_in.json" % tag), os.path.join(d, "remote_%s_out.json" % tag)
+    json.dump(inp, open(rin, "w"))
+    if os.path.exists(rout):
+        os.remove(rout)
+    pcases = run_pruner(pcases, tag, test="^(TestVerifPruner|TestVerifRemote)$", harness=dict(PRUNER_HARNESS, **REMOTE_HARNESS),
+                        env={"VERIF_REMOTE_CASES": rin, "VERIF_REMOTE_OUT": rout})
+    if not os.path.exists(rout):
+        raise vlib.TieBroken("C18 remote harness wrote no output")
+    out = json.load(open(rout))
+    cases = rcases
+    if len(out) != len(cases):
+        raise vlib.TieBroken("C18 remote harness returned %d results for %d cases" % (len(out), len(cases)))
+    for c, o in zip(cases, out):
+        if o.get("other"):
+            raise vlib.TieBroken("OptimizeTablePath returned a path of unexpected shape: %r" % o["other"][:2])
+        c["obs"] = o
+    return pcases, cases
+
+
+def rcase_coq(c):
+    o = c["obs"]
+    lz = lambda l: "[" + ";".join(hz(x) for x in l) + "]"
+    obs = "(Some [%s])" % ";".join(cstr(x) for x in o["hours"] + o["days"]) if o["optimized"] else "None"
+    return "{|rc_w:=%s;rc_now:=%s;rc_world:={|rw_hours:=%s;rw_days:=%s;rw_fail_day:=%s;rw_fail_month:=%s;rw_fail_list:=%s|};rc_obs:=%s|}" % (
+        w_coq(c["w"]), hz(c["now"]), lz(c["hours"]), lz(c["days"]), lz(c["fail_day"]), lz(c["fail_month"]), lz(c["fail_list"]), obs)
 
 
 def row_coq(r):
@@ -595,9 +670,16 @@ def coq_lists(name, body, labels):
     return res
 
 
-def evaluate(pcases, files, qcases, name, duck_rows=()):
+def evaluate(pcases, files, qcases, name, duck_rows=(), rcases=()):
     from concurrent.futures import ThreadPoolExecutor
     jobs = []
+    RCH = 80
+    for off in range(0, len(rcases), RCH):
+        body = chunked("rcases", "rcase", [rcase_coq(c) for c in rcases[off:off + RCH]], 10)
+        body += "Definition r_dis := Eval vm_compute in vidx rcase_agrees 0%N rcases.\nPrint r_dis.\n"
+        body += "Definition r_orf := Eval vm_compute in vidx rcase_oracle 0%N rcases.\nPrint r_orf.\n"
+        body += "Definition r_lf := Eval vm_compute in vidx (fun c => negb (rcase_list_fault c)) 0%N rcases.\nPrint r_lf.\n"
+        jobs.append(("r", off, name + "_remote_%d" % off, body, ["r_dis", "r_orf", "r_lf"]))
     relprims = [c for c in pcases if c["tag"] == "relprim"]
     pcases = [c for c in pcases if c["tag"] != "relprim"]
     mterms = ["MGo %s %s %s" % (hz(c["now"]), hz(c["rel"][0] if c["rel"][1] else -c["rel"][0]), hz(c["obs"]["rel"])) for c in relprims]
@@ -620,9 +702,12 @@ def evaluate(pcases, files, qcases, name, duck_rows=()):
         jobs.append(("q", off, name + "_query_%d" % off, body, ["q_dis", "q_orf", "q_cls"]))
     with ThreadPoolExecutor(max_workers=8) as ex:
         results = list(ex.map(lambda j: coq_lists(j[2], j[3], j[4]), jobs))
-    r = {"p_dis": [], "q_dis": [], "q_orf": [], "q_cls": {}, "m_dis": [], "mterms": mterms, "pcases": pcases}
+    r = {"p_dis": [], "q_dis": [], "q_orf": [], "q_cls": {}, "m_dis": [], "mterms": mterms, "pcases": pcases, "r_dis": [], "r_orf": [], "r_lf": []}
     for (kind, off, _, _, _), rr in zip(jobs, results):
-        if kind == "m":
+        if kind == "r":
+            for k in ("r_dis", "r_orf", "r_lf"):
+                r[k] += [off + x for x in rr[k]]
+        elif kind == "m":
             r["m_dis"] = rr["m_dis"]
         elif kind == "p":
             r["p_dis"] += [off + x for x in rr["p_dis"]]
@@ -656,25 +741,25 @@ def run(res, tier, seed):
         "the WHERE text <-> AST printer of tools/props/C18.py; the pruner's regular expressions are modelled on the atoms in textual order (string-literal contents, comments, sub-selects and joins are outside the modelled grammar)",
         "Go's time.Parse layouts accepted by parseDateTime are summarised per literal spelling by the generator (l_ok) and checked through the extracted range; NOW() +/- INTERVAL 'n months' is modelled on both sides (Go AddDate normalisation, DuckDB end-of-month clamping) and both definitions are validated each run (evaluateRelativeTime under the controlled clock, DuckDB on explicit TIMESTAMPTZ values); amounts overflowing time.Duration are not modelled",
         "query level: the pruner reads a controlled clock and the NOW()/CURRENT_TIMESTAMP of the SQL that DuckDB executes are replaced by the same instant (harness)",
-        "layout: hour files .../YYYY/MM/DD/HH/*.parquet and daily-compacted files .../YYYY/MM/DD/*.parquet, every row stored in the partition of its own timestamp; local storage backend (the S3/Azure existence filter is not exercised)",
+        "layout: hour files .../YYYY/MM/DD/HH/*.parquet and daily-compacted files .../YYYY/MM/DD/*.parquet, every row stored in the partition of its own timestamp; local storage backend at the query level; the S3/Azure existence filter (filterExistingRemotePaths) is driven through OptimizeTablePath with a fake DirectoryLister backend and injected listing failures (partition-level oracle, no DuckDB)",
     ]
     t1 = time.time()
-    pcases = run_pruner(pruner_cases(rng, tier), tier)
-    res.stage("pruner_harness", t1)
+    pcases, rcases = run_pruner_and_remote(pruner_cases(rng, tier), remote_cases(rng, tier), tier)
+    res.stage("pruner_and_remote_harness", t1)
     t2 = time.time()
     base, files, day_files = build_layout(rng)
     qcases, duck_rows = run_queries(files, query_cases(rng, tier, base, day_files), tier, prims=duck_prims(rng, tier))
     res.stage("query_harness", t2)
     t3 = time.time()
-    ev = evaluate(pcases, files, qcases, "Cases_%s" % tier, duck_rows)
+    ev = evaluate(pcases, files, qcases, "Cases_%s" % tier, duck_rows, rcases)
     res.stage("coq_eval", t3)
-    report(res, ev["pcases"], files, qcases, ev, failed)
+    report(res, ev["pcases"], files, qcases, ev, failed, rcases)
 
 
-def report(res, pcases, files, qcases, ev, failed):
+def report(res, pcases, files, qcases, ev, failed, rcases=()):
     known = {e["signature"]: e for e in vlib.known_for("C18")}
     nrows = sum(len(f["rows"]) for f in files)
-    res.cov["evaluations"] = len(pcases) + len(qcases) * 2 + len(ev["mterms"])
+    res.cov["evaluations"] = len(pcases) + len(qcases) * 2 + len(ev["mterms"]) + len(rcases)
     nt = {c["sql"] for c in pcases if c["where"] and w_nontrivial(c["w"])} | {c["sql"] for c in qcases if w_nontrivial(c["w"])}
     res.cov["distinct_nontrivial"] = len(nt)
     res.cov["rule"] = ("pruner level: generated WHERE clauses (conjunctions of time bounds in 10 literal spellings, BETWEEN, NOW() +/- INTERVAL, flags, OR/NOT trees, "
@@ -692,9 +777,12 @@ def report(res, pcases, files, qcases, ev, failed):
         "query_class_histogram": {str(k): sum(1 for v in ev["q_cls"].values() if v == k) for k in range(7)},
         "layout_files": len(files), "layout_rows": nrows,
     }
-    res.cov["model_vs_impl_disagreements"] = len(ev["p_dis"]) + len(ev["q_dis"]) + len(ev["m_dis"])
+    res.cov["model_vs_impl_disagreements"] = len(ev["p_dis"]) + len(ev["q_dis"]) + len(ev["m_dis"]) + len(ev["r_dis"])
+    res.cov["histogram"]["remote_cases"] = len(rcases)
+    res.cov["histogram"]["remote_optimized"] = sum(1 for c in rcases if c["obs"]["optimized"])
+    res.cov["histogram"]["remote_cases_with_listing_fault_in_range"] = sum(1 for c in rcases if c["fail_day"] or c["fail_month"] or c["fail_list"])
     res.cov["histogram"]["month_arithmetic_cases"] = len(ev["mterms"])
-    res.cov["oracle_failures"] = len(ev["q_orf"])
+    res.cov["oracle_failures"] = len(ev["q_orf"]) + len(ev["r_orf"])
     sample_q = next((c for c in qcases if c["obs"].get("was_pruned")), qcases[0])
     res.cov["samples"] = [
         {"pruner": pcases[8]["sql"], "now_us": pcases[8]["now"], "range_us": None if pcases[8]["obs"]["nil"] else [pcases[8]["obs"]["start"], pcases[8]["obs"]["end"]],
@@ -724,16 +812,36 @@ def report(res, pcases, files, qcases, ev, failed):
             unexplained.append((sig, w, i in qdis))
         else:
             known_hit.setdefault(sig, []).append(w)
+    # remote filter: a stored partition missing from the filtered list
+    rdis, rlf = set(ev["r_dis"]), set(ev["r_lf"])
+    for i in ev["r_orf"]:
+        c = rcases[i]
+        wit = {"sql": c["sql"], "stored_hour_dirs": [hour_dir(h) for h in c["hours"]][:40], "stored_day_files": [day_dir(d) for d in c["days"]],
+               "ListDirectories_fails_for": [day_dir(d) for d in c["fail_day"]] + ["%04d/%02d" % (k // 12, k % 12 + 1) for k in c["fail_month"]],
+               "List_fails_for": [day_dir(d) for d in c["fail_list"]], "kept_hours": c["obs"]["hours"], "kept_days": c["obs"]["days"]}
+        if i in rlf and i not in rdis and SIG_REMOTE_LIST in known:
+            known_hit.setdefault(SIG_REMOTE_LIST, []).append(wit)
+        else:
+            unexplained.append((None, wit, i in rdis))
     res.cov["oracle_failures_by_known_class"] = {k: len(v) for k, v in sorted(known_hit.items())}
     for sig, hits in sorted(known_hit.items()):
         res.known_finding("[%s] %s (%d queries this run return different rows with pruning on and off, each row set predicted by the model)" % (sig, known[sig]["what"], len(hits)))
     if unexplained:
         unexplained.sort(key=lambda u: u[0] is not None)      # inputs inside the theorem's domain first
         sig, w, dis = unexplained[0]
-        res.violation("pruning changes the rows of a query outside every known class" if not dis else
-                      "pruning changes the rows of a query and the model does not predict the row sets",
+        remote = "stored_hour_dirs" in w
+        res.violation(("a partition that holds files is dropped from the pruned path list on remote storage (filterExistingRemotePaths)" if remote else
+                       "pruning changes the rows of a query outside every known class") if not dis else
+                      ("filterExistingRemotePaths drops a partition that holds files and the model does not predict the kept list" if remote else
+                       "pruning changes the rows of a query and the model does not predict the row sets"),
                       {"kind": "oracle-failure", "case": w, "class": sig, "model_disagrees": dis, "count": len(unexplained),
                        "files": [{"dir": f["dir"]} for f in files], "how_to_replay": "python3 tools/check.py C18 --replay <this file>"})
+    if ev["r_dis"] and not any(u[2] and "stored_hour_dirs" in u[1] for u in unexplained):
+        c = rcases[ev["r_dis"][0]]
+        res.violation("model and OptimizeTablePath/filterExistingRemotePaths disagree on remote storage",
+                      {"kind": "correspondence", "correspondence": TIE_NAME, "case": {"sql": c["sql"], "observed": c["obs"], "fail_day": [day_dir(d) for d in c["fail_day"]],
+                       "fail_list": [day_dir(d) for d in c["fail_list"]]}, "disagreeing_cases": len(ev["r_dis"]), "oracle_fails_on_impl": ev["r_dis"][0] in ev["r_orf"]},
+                      no_input=ev["r_dis"][0] not in ev["r_orf"], suffix="corrr")
     if ev["m_dis"]:
         res.violation("month arithmetic of evaluateRelativeTime (MGo) / DuckDB (MDuck) is not what the model defines",
                       {"kind": "correspondence", "correspondence": TIE_NAME, "case": {"month_case (t_us, months, observed_us)": ev["mterms"][ev["m_dis"][0]]},
@@ -787,6 +895,7 @@ def replay(res, path):
         return 1
     rng = random.Random(res.seed * 7919 + 18)
     pruner_cases(rng, "quick")                       # advance the generator exactly as run() does
+    remote_cases(rng, "quick")
     _, files, _ = build_layout(rng)
     out = vlib.run_go_harness("C18", "./internal/api/", "^TestVerifPruningQuery$", QUERY_HARNESS,
                               {"files": [{"dir": f["dir"], "rows": f["rows"]} for f in files], "queries": [{"sql": c["sql"], "now": c.get("now_us", 0)}], "prims": []},
